@@ -162,6 +162,16 @@ func hostileDecInputs(r *rand.Rand, n int, thorough bool) ([][]byte, []string) {
 		add(hdr(append(bytes.Repeat([]byte{0x01, 0x01}, k), 0x02, 0xFF, 0xFF)), "huge-list-at-end")
 		add(hdr(append(bytes.Repeat([]byte{0x01, 0x01}, k), 0x03, 0x08, 0x00, 0x00)), "huge-list-at-end")
 	}
+	// header-only messages of every type, every format byte, every byte value in an ASCII item
+	for _, b := range headerOnlyGrid(r) {
+		add(b, "header-grid")
+	}
+	for _, b := range formatByteSweep(r) {
+		add(b, "format-byte")
+	}
+	for _, b := range asciiEveryByte() {
+		add(b, "ascii-byte")
+	}
 	// long strings and truncations of valid messages, random bytes
 	for i := 0; i < n; i++ {
 		item := genItem(r, GenOpt{MaxDepth: 4, MaxSlots: 6, Big: true})
